@@ -546,6 +546,11 @@ impl StorageEngine {
             Some(stored_value) => {
                 match &mut stored_value.value {
                     Value::Stream(stream) => {
+                        // XADD * needs an ID above the last one: none exists once the top of the ID space is taken
+                        if stream.last_id() == StreamId::max() {
+                            return Err(FerrousError::Command(CommandError::Generic(
+                                "The stream has exhausted the last possible ID, unable to add more items".to_string())));
+                        }
                         let id = stream.add_auto(fields);
                         shard_guard.mark_modified(&key);
                         id
@@ -554,7 +559,7 @@ impl StorageEngine {
                 }
             }
             None => {
-                // Create new stream
+                // Create new stream (its last ID is 0-0, so an ID above it always exists)
                 let new_stream = Stream::new();
                 let id = new_stream.add_auto(fields);
                 
